@@ -70,7 +70,7 @@ func buildSQLGrammar() *sqlGrammar {
 	addPay("folding_noise", "~or~1=1~or~((1=1))", "~or~2>1~or~((1=1))", "~or~1<2~and~((1=1))", "~or~1=1~or~(2=2)", "~or~(1=1)~or~(2=2)", "~or~((1=1))", "~and~((1=1))~or~1=1", "~or~1=1~or~2=2~or~3=3", "~or~(1=1~and~(2=2))", "~or~((1))=((1))",
 		"~or~1=1~or~((1=1))~or~2=2", "~or~not~((1=2))", "~or~1=(1)~or~((2))=2", "~or~1=+1", "~or~-1=-1", "~or~1=1*1", "~or~(1+1)=2", "~or~1+1=2", "~or~~1=~1", "~or~1=1-0", "~or~!1=!1", "~or~+1=+1~or~-(1)=-(1)", "~or~1=((((1))))", "~or~((((1))))=1", "~and~1=1~and~((2=2))~and~3=3",
 		"~or~1~or~((1))", "~or~'a'='a'~or~(('a'='a'))", "~or~1=1~and~(2=2~or~(3=3))")
-	addPay("comment_truncation", "--", "--~", "#", "/*", "--~foo", ";--", "/*foo*/", ";#", "--+", "~or~1--")
+	addPay("comment_truncation", "--", "--~", "#", "/*", "--~foo", ";--", "/*foo*/", ";#", "--+", "~or~1--", "~--", "~--~", "~#", "~/*", "~--~foo", "~--+", "~;--", "~--~-")
 	g.Tails = []string{"", "--", sp("--~"), "#", "/*", ";", sp(";--~"), sp("~--~-"), sp("~or~'1'='1"), sp("~and~'a'='a"), sp("~or~\"1\"=\"1"), "'", "\"", ")", sp("--~x"), "#x", ";--", "/*x"}
 	g.Seps = []string{" ", "\t", "\n", "\r", "\v", "\f", "\xa0", "\x00", "/**/", "/*x*/", "  ", " \t\n", "/**/ "}
 	return g
